@@ -390,6 +390,9 @@ class FrameBase(DaskMethodsMixin):
         return new_collection, (self._expr,)
 
     def __getitem__(self, other):
+        if callable(other):
+            # pandas semantics: ``obj[func]`` is ``obj[func(obj)]``
+            other = other(self)
         if isinstance(other, FrameBase):
             return new_collection(self.expr.__getitem__(other.expr))
         elif isinstance(other, slice):
